@@ -9,6 +9,11 @@
 
 package runtime
 
+// authoring-time field names (a renamed field is bound by position)
+//@ fields semaState mu cond waiters
+//@ fields notifyState mu cond
+//@ fields notifyList wait notify lock head tail
+
 // getSemaState / getNotifyState: every semaphore word (notify list) has its OWN
 // state object - the one registered under exactly its address. (Once.Do is
 // trusted to have run the map initialiser: see /verif/trusted.)
